@@ -10,6 +10,7 @@
 EXTENDS Integers, Sequences, FiniteSets
 
 CONSTANTS EndT, MaxEv, Delays, Prios,
+          StepMode,          \* TRUE: the events are executed by step(), which announces TIME_CHANGED for EVERY event (also when the time stays)
           OldClockDuringTC   \* TRUE: the defect of the pinned tree (the clock is moved only AFTER the announcement, so a listener's
                              \* "now" is the old time and its event lies in the past of the event about to run); FALSE: as repaired
 
@@ -43,7 +44,7 @@ Sched(by, d, p) ==
 Announce ==
     /\ about = 0 /\ pending # {}
     /\ LET m == First(pending) IN
-         /\ ev[m].t # clock /\ ev[m].t <= EndT
+         /\ (ev[m].t # clock \/ StepMode) /\ ev[m].t <= EndT
          /\ about' = m /\ pending' = pending \ {m}
          /\ ann' = ev[m].t /\ lastTC' = ev[m].t
          /\ op' = [a |-> "TC", ts |-> ev[m].t]
@@ -52,7 +53,7 @@ Announce ==
 (* the event about to run (announced, or the first one if its time is the clock) executes at its own time *)
 Exec ==
     /\ \/ about # 0
-       \/ about = 0 /\ pending # {} /\ ev[First(pending)].t = clock
+       \/ about = 0 /\ ~StepMode /\ pending # {} /\ ev[First(pending)].t = clock
     /\ LET m == IF about # 0 THEN about ELSE First(pending) IN
          /\ clock' = ev[m].t
          /\ pending' = pending \ {m}
